@@ -8,18 +8,30 @@ package localcachedmap
 
 // lastmerged: ghost - the merged key GetOrCreate used for its lookup
 //@ ghost var lastmerged []byte
+//@ ghost var lastmk string
 
 // The objects of the by-key-set orchestrator (the only instantiation) are identified by strings.Join(keys, ","), kept for
 // the life of the pipeline: the keys handed to createObject must be permanent (immutable copies, not views into a
 // record buffer) and - for the id to identify the tuple, see util.lemmaJoinedInjective - free of the separator.
 //@ fieldspec GlobalCachedMap.createObject(keys []string, onStopped func()) G
-//@   requires[keys-are-permanent-copies] forall i int :: 0 <= i && i < len(keys) ==> !writable(keys[i])
+//@   requires[keys-are-permanent-copies] forall i int :: 0 <= i && i < len(keys) ==> !shared(keys[i])
 //@   requires[no-separator-in-key-values] forall i int :: 0 <= i && i < len(keys) ==> nosep(keys[i], 44)
+//@   modifies nothing
+
+// the callbacks get the permanent keys to read (the orchestrator's one only logs them); trusted
+//@ fieldspec LocalCachedMap.GetOrCreate.param.onCreating(permKeys []string)
+//@   modifies nothing
+//@ fieldspec GlobalCachedMap.wrapObject(obj G) L
+//@   modifies nothing
 
 //@ func (lm *LocalCachedMap[G, L]) GetOrCreate(tempKeys []string, onCreating func(permKeys []string)) L
 //@   requires lm != nil && lm.source != nil && lm.localMap != nil && lm.source.globalMap != nil && lm.source.globalMutex != nil && lm.source.objectCounter != nil
+//@   requires len(lm.keyBuffer) == 0
+//@   requires onCreating != nil && lm.source.createObject != nil && lm.source.wrapObject != nil
 //@   modifies everything
 //@   ghostset lastmerged := tempMergedKey
+//@   ghostset lastmk := string(tempMergedKey)
 //@   ensures[looked-up-under-the-merged-key-of-its-own-tuple] util.mkpos[0] == 0 && util.mkpos[len(tempKeys)] == len(lastmerged) && util.mergedof(lastmerged, util.mkpos, tempKeys, len(tempKeys))
-//@   ensures[returns-the-entry-of-that-key] has(lm.localMap, key(string(lastmerged))) && lm.localMap[key(string(lastmerged))] == result
-//@   ensures[existing-entry-is-reused] old(has(lm.localMap, key(string(lastmerged)))) ==> result == old(lm.localMap[key(string(lastmerged))])
+//@   ensures[key-buffer-reset] len(lm.keyBuffer) == 0
+//@   ensures[returns-the-entry-of-that-key] has(lm.localMap, lastmk) && lm.localMap[lastmk] == result
+//@   ensures[existing-entry-is-reused] old(has(lm.localMap, now(lastmk))) ==> result == old(lm.localMap[now(lastmk)])
